@@ -50,6 +50,11 @@ def corpus():
         {"o": "add", "d": 2, "s": 0, "n": 1, "e": 1}, {"o": "rem", "d": 3, "s": 2, "e": 5}, {"o": "compact", "d": 4, "s": 2},
         {"o": "laws", "a": 0, "b": 1, "c": 2}, {"o": "laws", "a": 4, "b": 1, "c": 3}, {"o": "new", "d": 5, "t": "g"}, {"o": "merge", "d": 6, "a": 2, "b": 5},
         {"o": "merge", "d": 7, "a": 5, "b": 2}]})
+    # ORSet: common state, then each side removes a different element (same clock, same cardinality, different content)
+    P.append({"kind": "corpus-orset-divergent-removes", "ops": [
+        {"o": "new", "d": 0, "t": "s"}, {"o": "add", "d": 0, "s": 0, "n": 1, "e": 1}, {"o": "add", "d": 0, "s": 0, "n": 1, "e": 2},
+        {"o": "clone", "d": 1, "s": 0}, {"o": "rem", "d": 0, "s": 0, "e": 1}, {"o": "rem", "d": 1, "s": 1, "e": 2}, {"o": "new", "d": 2, "t": "s"},
+        {"o": "laws", "a": 0, "b": 1, "c": 2}, {"o": "laws", "a": 1, "b": 0, "c": 2}]})
     # MVRegister: concurrent sets, overwrite after merge
     P.append({"kind": "corpus-mv", "ops": [
         {"o": "new", "d": 0, "t": "mv"}, {"o": "mvset", "d": 1, "s": 0, "n": 1, "e": 1}, {"o": "mvset", "d": 2, "s": 0, "n": 4, "e": 1},
@@ -95,6 +100,9 @@ def gen_programs(ctx):
         t = types[i % len(types)]
         p = cu.gen_random_prog(0, t, rng, rng.choice([12, 25, 40]), lww_unique=(rng.random() < 0.85))
         progs.append(p)
+    # replicas that share a common state and then only remove (equal clocks, equal cardinalities, different contents)
+    for i in range(600 if ctx.thorough else 90):
+        progs.append(cu.gen_common_then_diverge(0, "s" if i % 3 else "m", rng, R=rng.choice([2, 3, 3])))
     for i, p in enumerate(progs):
         p["id"] = i
     return progs
